@@ -234,6 +234,11 @@ func (c *Config) handleSvcEndpointUpdate(svcName string, added, removed []*servi
 	}
 	switch oldEndpoints {
 	case nil:
+		// NOTE: The endpoints are still unknown if the update only removes
+		// something, the add event must wait for them.
+		if sw.Endpoints == nil {
+			return
+		}
 		c.emitSvcAddEvent(sw)
 	default:
 		c.emitSvcEndpointEvent(svcName, validAdded, validRemoved)
